@@ -33,7 +33,7 @@ Print Assumptions C07_step_awaitable.
 Theorem C07_close_by_kind e sid oid ob : nth_error (objs e) oid = Some ob -> o_sid ob = sid ->
   snd (close_one e sid oid) =
   match o_kind ob with
-  | KRRReq => match o_fut ob with FPending => [XFut oid false] | _ => [] end
+  | KRRReq => match o_fut ob with FPending => [XFut oid false [] []] | _ => [] end
   | KRRResp => match o_fut ob with FPending => [XAppFutCancel oid] | _ => [] end
   | KRSReq => if o_has_sub ob then [XCb oid SError] else []
   | KRSResp => [XPub oid PCancelOp]
